@@ -18,6 +18,8 @@ type Gen struct {
 	next    map[string]uint64
 	Regimes map[string]int
 	Lines   []string
+	used    map[string]bool // (file, index) pairs handed out
+	jumpy   bool
 }
 
 const wrapNs = int64(1) << 32 * 1000 // 2^32 us in ns
@@ -53,7 +55,28 @@ func (g *Gen) Emit(format string, a ...interface{}) {
 
 func (g *Gen) ref() Ref {
 	f := lib.Pick(g.R, g.Files)
+	if g.used == nil {
+		g.used = map[string]bool{}
+		g.jumpy = g.R.Chance(1, 3)
+	}
+	key := func(i uint64) string { return fmt.Sprintf("%s#%d", f, i) }
+	// one case in three: packet indexes of a capture jump between the 2^32 windows in any order (a stream from late
+	// in a huge capture is written before one from its beginning), so import entries are not created in window order
+	if g.jumpy && g.R.Chance(1, 4) {
+		for try := 0; try < 20; try++ {
+			i := uint64(g.R.Intn(4))<<32 + uint64(g.R.Intn(40))
+			if !g.used[key(i)] {
+				g.used[key(i)] = true
+				g.Regimes["index_windows_out_of_order"]++
+				return Ref{File: f, Index: i}
+			}
+		}
+	}
 	i := g.next[f]
+	for g.used[key(i)] {
+		i++
+	}
+	g.used[key(i)] = true
 	g.next[f] = i + 1 + uint64(g.R.Intn(3))
 	return Ref{File: f, Index: i}
 }
